@@ -90,6 +90,13 @@ def gen_direct_case(rnd):
         s_ = geod.distance_for_arc(la_, az_, D0, a_e, invf_e, two_sigma_m=mid)
         if s_ is not None and 0 < s_ <= 2e7:
             lat1, az, s, kind = la_, az_, s_, 'arc-multiple'
+    if rnd.random() < 0.06:
+        # lines far shorter than anything surveyed but not of zero length (a nanometre to a millimetre), oblique, at middle
+        # and high latitude: the reverse azimuth still differs from azimuth + 180 by the meridian convergence over the line
+        lat1 = rnd.choice([1, -1]) * rnd.uniform(30, 88.9)
+        az = rnd.uniform(0, 360)
+        s = 10 ** rnd.uniform(-9, -3)
+        kind = 'sub-millimetre'
     argt = 'float'
     if rnd.random() < 0.2:
         argt = rnd.choice(ax.ANGLE_CLASSES)
